@@ -332,10 +332,15 @@ def gen_field_value(rng, cname, f, valid=True):
         return rng.choice(FREE_STR + ['fabric.c4.m16.d100'])
     if cname == 'Labels':
         pool = LABEL_POOL.get(f, FREE_STR)
-        if rng.random() < 0.3:
+        r = rng.random()
+        if r < 0.15:
+            return unsorted_list(rng, pool)
+        if r < 0.35:
             return [rng.choice(pool) for _ in range(rng.choice([0, 1, 2, 3]))]
         return rng.choice(pool)
     if cname in ('ReservationInfo', 'StructuralInfo'):
+        if rng.random() < 0.15:
+            return unsorted_list(rng, ['guid-z', 'guid-a', 'guid-m', 'g1', 'g2', 'Active', 'x'])
         if rng.random() < 0.3:
             return [rng.choice(FREE_STR + [3, None, 2.5, True]) for _ in range(rng.choice([0, 1, 2, 3]))]
         return rng.choice(FREE_STR + ['Active', 'e7d8a1c4-0000-4000-8000-000000000001'])
@@ -346,6 +351,18 @@ def gen_field_value(rng, cname, f, valid=True):
     if cname == 'Flags':
         return rng.choice([True, False])
     raise KeyError(cname)
+
+
+def unsorted_list(rng, pool):
+    """>= 2 elements, NOT in ascending order (descending, with a duplicate) whenever the pool allows it"""
+    xs = sorted(set(x for x in pool if isinstance(x, str)), reverse=True)
+    if len(xs) < 2:
+        return [pool[0], pool[0]]
+    k = rng.choice([2, 2, 3, 4])
+    out = xs[:k]
+    if rng.random() < 0.5:
+        out.insert(rng.randrange(1, len(out) + 1), out[0])      # duplicate of the largest, not at the front
+    return out
 
 
 def compatible(cname, v):
@@ -474,10 +491,22 @@ class FieldStream(Stream):
                 return None if y is None else canon(dict(y.__dict__))
             except Exception as e:
                 return err(e)
-        t = x.to_json()
+        # encode: the object's fields and the caller's argument lists are snapshotted BEFORE every to_json / repr / str /
+        # to_dict call (o['ctor'] and snap above, case['kw'] for the arguments) and compared afterwards
+        try:
+            t = x.to_json()
+            r1, r2 = repr(x), str(x)
+            d = x.to_dict()
+        except Exception as e:
+            return {'ctor': o['ctor'], 'encode_error': err(e)}
         o['text'] = t
-        d = x.to_dict()
         o['dict'] = None if d is None else canon(d)
+        o['encode_mutated'] = None
+        if not same(canon(dict(x.__dict__)), canon(snap)):
+            o['encode_mutated'] = 'the object: %r -> %r' % (canon(snap), canon(dict(x.__dict__)))
+        elif not same(canon([[k, v] for k, v in kw.items()]), canon(case['kw'] if not case.get('fg') else case['kw'])) \
+                and len(kw) == len(case['kw']):
+            o['encode_mutated'] = 'the caller\'s arguments: %r -> %r' % (case['kw'], [[k, v] for k, v in kw.items()])
         o['dec'] = dec(t)
         try:
             y = cls.from_json(t)
@@ -522,7 +551,10 @@ class FieldStream(Stream):
         return o
 
     def to_coq(self, case, o):
-        if 'text' not in o:
+        if 'encode_error' in o:
+            obs = [o['ctor'], o['encode_error']]
+            textx = ''
+        elif 'text' not in o:
             obs = [o['ctor']]
             textx = ''
         else:
@@ -532,11 +564,16 @@ class FieldStream(Stream):
                                            cobj([(k, v) for k, v in case['ukw']]), cjson(obs))
 
     def oracle(self, case, o):
+        if 'encode_error' in o:
+            return 'roundtrip: %s.to_json / repr / to_dict raises %s on a constructed value %r' % (
+                classes()[case['cls']].__name__, o['encode_error']['err'], o['ctor'])
         if 'text' not in o:
             return None
         cls = classes()[case['cls']]
         cn = cls.__name__
         x = o['ctor']
+        if o.get('encode_mutated'):
+            return 'purity: encoding a %s (to_json / repr / str / to_dict) modified %s' % (cn, o['encode_mutated'])
         if o['mutated']:
             return 'purity: %s.update modified its argument' % cn
         if not o['upd_is_new']:
@@ -614,6 +651,9 @@ class FieldStream(Stream):
              'update_errors': {}, 'list_values': 0, 'zero_like_values': 0}
         for c, o in zip(cases, obs):
             h['per_class'][cl[c['cls']]] += 1
+            if 'encode_error' in o:
+                h['encode_errors'] = h.get('encode_errors', 0) + 1
+                continue
             if 'text' not in o:
                 h['ctor_errors'][o['ctor']['err']] = h['ctor_errors'].get(o['ctor']['err'], 0) + 1
                 continue
@@ -624,6 +664,8 @@ class FieldStream(Stream):
             if is_err(o['upd']):
                 h['update_errors'][o['upd']['err']] = h['update_errors'].get(o['upd']['err'], 0) + 1
             h['list_values'] += any(isinstance(v, list) for _, v in c['kw'])
+            h['unsorted_list_values'] = h.get('unsorted_list_values', 0) + any(
+                isinstance(v, list) and len(v) >= 2 and all(isinstance(e, str) for e in v) and v != sorted(v) for _, v in c['kw'])
             h['zero_like_values'] += any(v in (0, '', []) or v is False for _, v in c['kw'] if not (isinstance(v, float) and v != v))
         return h
 
